@@ -525,7 +525,8 @@ class Spectrum:
                 raise ValueError('Unknown ends ', ends)
 
             # sample
-            f = self.sample(x, method=sample_method, fill_value=fill_value)
+            f = self.sample(x, method=sample_method, fill_value=fill_value,
+                            waveunit=waveunit)
 
             # apply the chained trapezoidal rule
             bins = np.array([])
@@ -550,7 +551,8 @@ class Spectrum:
                 raise ValueError('Unknown ends ', ends)
 
             # sample
-            f = self.sample(x, method=sample_method, fill_value=fill_value)
+            f = self.sample(x, method=sample_method, fill_value=fill_value,
+                            waveunit=waveunit)
 
             # apply the chained simpson's rule
             bins = np.array([])
@@ -899,6 +901,11 @@ def _interp_common(s1, s2, sampling, method, fill_value):
     """
     # compute a common wavelength array that spans both spectrum and has the
     # desired sampling
+    if s2.waveunit != s1.waveunit:
+        # work in s1's wavelength unit without rewriting the caller's operand
+        s2 = s2.copy()
+        s2.to(s1.waveunit)
+
     minwave = min(s1.wave.min(), s2.wave.min())
     maxwave = max(s1.wave.max(), s2.wave.max())
 
@@ -915,8 +922,10 @@ def _interp_common(s1, s2, sampling, method, fill_value):
     s2_wave = commonwave[s2_index]
 
     # sample each Spectrum at the requested sampling
-    s1_samplevalue = s1.sample(s1_wave, method=method, fill_value=fill_value)
-    s2_samplevalue = s2.sample(s2_wave, method=method, fill_value=fill_value)
+    s1_samplevalue = s1.sample(s1_wave, method=method, fill_value=fill_value,
+                               waveunit=s1.waveunit)
+    s2_samplevalue = s2.sample(s2_wave, method=method, fill_value=fill_value,
+                               waveunit=s1.waveunit)
 
     # create nominal value arrays
     s1_value = fill_value * np.ones(commonwave.shape)
